@@ -70,6 +70,10 @@ func OracleConvergence(prop string) func(w *Writers, hist []string) []explore.Vi
 			}
 			out = append(out, explore.Violation{Property: prop, Signature: sig, Detail: msg})
 		}
+		if msg, ok := w.Scratch["batch-not-delivered"].(string); ok {
+			delete(w.Scratch, "batch-not-delivered")
+			out = append(out, explore.Violation{Property: prop, Signature: "heads-batch-partly-dropped", Detail: msg})
+		}
 		for i, s := range w.Stores {
 			set := w.SetKey(i)
 			obs := w.Observables(i)
@@ -274,7 +278,7 @@ func runC01Unit(c *explore.Ctx, prop string, oracle func(w *Writers, a C01Arg)) 
 func init() {
 	explore.Register(&explore.CheckDef{
 		ID: "C01", Level: "model_checking",
-		Rule: "explicit-state DFS over histories (write by any writer, merge(i<-j), re-announcement) for the three store types; an extra observer replica receives heads of any writer at any time by manual Sync, topic message or direct-channel payload, plus announcements of arbitrary single entries and concurrent pairs in both list orders; replicas are restarted and reloaded from the cache, and saved/reloaded through snapshots. Gated units: replica 0 merges the other writers' heads with every block fetch of its replicator parked; all release orders with a bounded number of deviations, with one local write and one duplicate announcement allowed while fetches are in flight. Oracle in every state, every replica: differential (same entry set => same ordered list, heads and view as the first path that reached that set) and reference (list == (time,writer) sort, heads == maximal elements, view == replay). Non-trivial = distinct states in which some replica holds entries of two writers.",
+		Rule: "explicit-state DFS over histories (write by any writer, merge(i<-j), re-announcement) for the three store types; an extra observer replica receives heads of any writer at any time by manual Sync, topic message or direct-channel payload, plus announcements of arbitrary single entries and concurrent pairs in both list orders; replicas are restarted and reloaded from the cache, and saved/reloaded through snapshots. Gated units: replica 0 merges the other writers' heads with every block fetch of its replicator parked; all release orders with a bounded number of deviations, with one local write and one duplicate announcement allowed while fetches are in flight. Oracle in every state, every replica: a batch of heads handed over by Sync without error is held in full once the world is quiet and no fetch is parked; differential (same entry set => same ordered list, heads and view as the first path that reached that set) and reference (list == (time,writer) sort, heads == maximal elements, view == replay). Non-trivial = distinct states in which some replica holds entries of two writers.",
 		Units: func(tier string) []explore.Unit {
 			var u []explore.Unit
 			kinds := []struct{ kind, alpha string }{{"eventlog", "one"}, {"keyvalue", "twokeys"}, {"docstore", "twokeys"}, {"keyvalue", "tiny"}}
